@@ -47,7 +47,7 @@ SHAPES = {
     "item_attr": ('d["k"].x', ["d", ("k",), "x"]),       # an attribute behind an item lookup
     "squote_dotkey": ("d['a.b']", ["d", ("a.b",)]),      # a period inside a single-quoted key
 }
-FALLBACKS = {"none": None, "imm": 9, "mut": [1]}
+FALLBACKS = {"none": None, "imm": 9, "mut": [1, [2]]}  # (a mutable fallback that itself holds a mutable object)
 _CLS = {}
 
 
@@ -76,7 +76,7 @@ def host_class(cfg):
     path = SHAPES[cfg["shape"]][0]
     kw = dict(passthrough=cfg["passthrough"], transform=_double if cfg["transform"] else None)
     if cfg["fallback"] != "none":
-        kw["fallback"] = FALLBACKS[cfg["fallback"]]
+        kw["fallback"] = copy.deepcopy(FALLBACKS[cfg["fallback"]])  # (the descriptor gets its own object: the model's stays pristine)
     with warnings.catch_warnings():
         warnings.simplefilter("ignore")
         alias = (DeprecatedAlias if cfg["deprecated"] else Alias)(path, **kw)
@@ -167,7 +167,7 @@ def run_seq(ctx, case):
     obj = cls()
     realize(obj, state, segs)
     override = None  # None | ("set", v)
-    fb = FALLBACKS[cfg["fallback"]]
+    fb = copy.deepcopy(FALLBACKS[cfg["fallback"]])
     last_read = None
     wrote_alias = wrote_target = nontrivial = False
     tag = f"{'dep' if dep else 'alias'}:{cfg['host']}:{'pt' if cfg['passthrough'] else 'local'}"
@@ -237,7 +237,10 @@ def run_seq(ctx, case):
                 nontrivial = True
         elif name == "mutate_last":
             if isinstance(last_read, list):
-                last_read.append(99)  # the caller owns what a fallback read returned
+                last_read.append(99)  # the caller owns what a fallback read returned - at every depth
+                for x in last_read:
+                    if isinstance(x, list):
+                        x.append(98)
             continue
         elif name == "write":
             v = op[1]
